@@ -50,3 +50,16 @@ Definition builtin_ok (handled : list (string * option nat)) (tbl : list brow) (
 (* every value-returning builtin of the language is known to the table's classification *)
 Definition builtin_classified (g : gobuiltin) : bool :=
   negb (g_value g) || data_builtin (g_name g) || existsb (String.eqb (g_name g)) ["cap"; "copy"; "recover"].
+
+(* the "x.Error() of the builtin error interface" special case: every condition of isHandledBuiltinCall / doBuiltinCall that
+   mentions the method name Error must be exactly   invoke /\ method name = "Error" /\ zero arguments   (atoms sorted by the
+   generator); an `Error` method WITH arguments is an ordinary call and must get a call node *)
+Definition error_guard_spec : list string := ["invoke"; "method-name=Error"; "nargs=0"].
+
+Definition guard_exact (g : string * list string) : bool :=
+  Nat.eqb (List.length (snd g)) (List.length error_guard_spec)
+  && forallb (fun ab => String.eqb (fst ab) (snd ab)) (combine (snd g) error_guard_spec).
+
+(* the special case is present in both functions (node creation / edge building and the transfer function agree) *)
+Definition guards_cover (gs : list (string * list string)) : bool :=
+  existsb (fun g => String.eqb (fst g) "isHandledBuiltinCall") gs && existsb (fun g => String.eqb (fst g) "doBuiltinCall") gs.
